@@ -915,8 +915,9 @@ static Node *compute_vla_size(Type *ty, Token *tok) {
     base_sz = new_num(ty->base->size, tok);
 
   ty->vla_size = new_lvar("", ty_ulong);
+  // The size is computed in size_t, whatever the type of the length.
   Node *expr = new_binary(ND_ASSIGN, new_var_node(ty->vla_size, tok),
-                          new_binary(ND_MUL, ty->vla_len, base_sz, tok),
+                          new_binary(ND_MUL, new_cast(ty->vla_len, ty_ulong), base_sz, tok),
                           tok);
   return new_binary(ND_COMMA, node, expr, tok);
 }
